@@ -1,4 +1,5 @@
 //@host src/lib.rs
+//@quick (generic sweep without wall-clock dependence: also runs in the quick tier, labelled bounded)
 // C14 bounded stand-in: pseudo-random *valid* confirmation histories (each tag confirmed once, singly or by a multiple that
 // covers the tags not yet confirmed) with random early iterator drops, against a reference. Bound: 3000 histories of 10 tags.
 use crate::{Confirm, ConfirmPayload, ConfirmSmoother};
